@@ -26,6 +26,7 @@ import (
 	"strconv"
 	"strings"
 	"sync"
+	"sync/atomic"
 	"syscall"
 	"time"
 )
@@ -237,7 +238,11 @@ type job struct {
 	code   int
 	timed  bool
 	dur    time.Duration
+	// skipped: not run, or cut short, because VERIF_FAILFAST stopped the run after another job's failure
+	skipped bool
 }
+
+var failFast atomic.Bool
 
 func haveNetns() bool {
 	cmd := exec.Command("unshare", "-n", "sh", "-c", "ip link set lo up")
@@ -369,7 +374,16 @@ func runTier(p *Prop, tier string) int {
 		go func(j *job) {
 			defer wg.Done()
 			defer func() { <-sem }()
+			if failFast.Load() {
+				j.skipped = true
+				return
+			}
 			runJob(ctx, p, j, tier, seed, work, netns, timeout)
+			if os.Getenv("VERIF_FAILFAST") != "" && j.code == 1 && !j.timed {
+				// tooling mode (seed sweeps): one failing job settles the outcome, stop the others
+				failFast.Store(true)
+				cancel()
+			}
 		}(j)
 	}
 	wg.Wait()
@@ -562,7 +576,10 @@ func runJob(ctx context.Context, p *Prop, j *job, tier string, seed int64, work 
 	err := cmd.Run()
 	j.dur = time.Since(t0)
 	if err != nil {
-		if ctx.Err() != nil {
+		if ctx.Err() != nil && failFast.Load() {
+			j.skipped = true
+			j.code = 0
+		} else if ctx.Err() != nil {
 			j.timed = true
 			j.code = 2
 		} else if ee, ok := err.(*exec.ExitError); ok {
